@@ -80,6 +80,10 @@ def s1(ctx):
             isind = c.callee is None or (c.callee.name in ("call", "call_mut", "call_once") and (c.callee.trait or "").startswith("std::ops::Fn"))
             if isind:
                 what = role_str(sub.role_of_operand(c.args[0])) if c.args else "?"
+                # a callee that only receives `&EGraph` cannot change anything observable: no ordering obligation against `before`
+                tys = [sub.local_ty((mir.op_place(a) or {}).get("l")) for a in c.args[1:] if mir.op_place(a)]
+                if tys and all("&mut" not in t for t in tys):
+                    what += " (read-only)"
                 if sub is b:
                     ind.append((c.bb, what))
                 else:
@@ -97,7 +101,10 @@ def s1(ctx):
                         for cb in consume:
                             ind.append((cb, what + " (consumed)"))
     ctx.floor("searcher/applier invocation sites", len(ind), 2)
+    ctx.floor("mutating invocation sites (appliers)", len([1 for _, w in ind if "(read-only)" not in w]), 1)
     for bb_, what in ind:
+        if "(read-only)" in what:
+            continue
         ctx.check(b.dominated_by(bb_, [before]) and bb_ != before, "before-precedes:%d" % bb_, "the first measurement dominates the invocation of %s" % what[:60],
                   "apply_rewrites can run %s before the 'before' progress measurement is taken: a change made there is not counted and saturation is reported although the e-graph changed" % what[:80], where_of(b, bb_))
         ctx.check(b.must_pass(b.after(bb_), b.return_blocks(), [after]), "after-follows:%d" % bb_, "every path from the invocation of %s to return passes the second measurement" % what[:60],
